@@ -380,17 +380,17 @@ theorem newWin_ok {st : St} (inv : SInv st) {p : Nat} {pw : Win} (hp : LiveW st.
     rw [G] at hx'
     simp only [hqne, if_false, if_true, Option.some.injEq] at hx'
     exact hx'.symm
-  have hhold : ∀ (k : Nat), holders { st with tree := inserted st.tree q qw w cs, wx := (st.wx ++ Array.replicate (st.tree.wins.size - st.wx.size) ({} : WinX)).push { cparent := some q } } k = holders st k := by
+  have hhold : ∀ (k : Nat), holders { st with tree := inserted st.tree q qw w cs, wx := (st.wx ++ Array.replicate (st.tree.wins.size - st.wx.size) ({} : WinX)).push {} } k = holders st k := by
     intro k
     unfold holders
     simp only [hwx, Nat.sub_self, Array.replicate_zero, Array.append_empty, Array.toList_push, List.filter_append,
       List.length_append]
     simp
   have hgetX : ∀ (i : Nat), i < st.tree.wins.size →
-      getX { st with tree := inserted st.tree q qw w cs, wx := (st.wx ++ Array.replicate (st.tree.wins.size - st.wx.size) ({} : WinX)).push { cparent := some q } } i = getX st i := by
+      getX { st with tree := inserted st.tree q qw w cs, wx := (st.wx ++ Array.replicate (st.tree.wins.size - st.wx.size) ({} : WinX)).push {} } i = getX st i := by
     intro i hi
     rw [← hwx] at hi
-    have := getX_append_push (st := st) { cparent := some q } i hi
+    have := getX_append_push (st := st) {} i hi
     unfold getX
     simp only [hwx] at this ⊢
     exact this
